@@ -2,9 +2,11 @@
    destroy/repair operator and the objective is the documented weighted sum of the state.
    Model: C18/Vrp.v (oracle-parametrised: the operators' choices are arguments; tied to /repo on every check run by
    Cases/C18/vrp_trace_*.v and vrp_solve_*.v); specification and boolean checker: C18/VrpSpec.v; proofs: C18/VrpLists.v,
-   VrpProofs.v, VrpProofs2.v, VrpObj.v, VrpPinned.v.  The job-shop part of C18 is in Props/C18.v. *)
+   VrpProofs.v, VrpProofs2.v, VrpObj.v, VrpPinned.v; second model with the choices COMPUTED as in the code (only rng answers
+   and set iteration orders are oracle): C18/VrpChoice.v (tied to /repo by Cases/C18/vrp_choice_*.v), VrpChoiceProofs.v.
+   The job-shop part of C18 is in Props/C18.v. *)
 From Coq Require Import List ZArith Bool Arith.
-From SV Require Import C18.Vrp C18.VrpSpec C18.VrpProofs C18.VrpProofs2 C18.VrpObj C18.VrpPinned.
+From SV Require Import C18.Vrp C18.VrpSpec C18.VrpProofs C18.VrpProofs2 C18.VrpObj C18.VrpPinned C18.VrpChoice C18.VrpChoiceProofs C18.VrpChoiceTotal C18.VrpChoiceTotal2.
 Import ListNotations.
 Open Scope Z_scope.
 
@@ -41,6 +43,56 @@ Theorem C18_vrp_inv_sequence : forall I ops st st',
   inst_ok I = true -> vrp_inv I st -> run_ops I ops st = Some st' -> vrp_inv I st'.
 Proof. exact run_ops_inv. Qed.
 Print Assumptions C18_vrp_inv_sequence.
+
+(* ... in particular by the operators with their choices computed as vrp.py computes them (cost ranking, nearest
+   neighbours, _insertion_cost feasibility and cheapest position, regret order, vehicle selection), for every answer of
+   the random generator and every iteration order of the set `unassigned` ... *)
+Theorem C18_vrp_inv_computed_choices : forall I ops st st',
+  inst_ok I = true -> vrp_inv I st -> run_fops I ops st = Some st' -> vrp_inv I st'.
+Proof. exact run_fops_inv. Qed.
+Print Assumptions C18_vrp_inv_computed_choices.
+
+(* ... and these operators do not fail: the choices vrp.py computes always pass the guards under which (1) is proved,
+   provided the random generator answers as its methods promise (shuffle / set iteration: an enumeration of the set;
+   choice / sample: elements of the population; worst_removal's indices inside the candidate list) *)
+Theorem C18_vrp_greedy_total : forall I order st,
+  vrp_inv I st -> set_eqb order (unassigned st) = true -> exists st', f_greedy I order st = Some st'.
+Proof. exact f_greedy_total. Qed.
+Print Assumptions C18_vrp_greedy_total.
+
+Theorem C18_vrp_regret_total : forall I k orders st,
+  vrp_inv I st -> orders_ok I k orders st = true -> exists st', f_regret I k orders st = Some st'.
+Proof. exact f_regret_total. Qed.
+Print Assumptions C18_vrp_regret_total.
+
+Theorem C18_vrp_sync_aware_total : forall I order orders st,
+  vrp_inv I st -> set_eqb order (unassigned st) = true ->
+  exists mevs st1,
+    multi_plan I (filter (fun c => (1 <? c_req (cget I c))%nat) order) st = Some mevs
+    /\ multi_events I mevs st = Some st1
+    /\ (orders_ok I 2 orders (mkSt (routes st1) (filter (fun c => (c_req (cget I c) =? 1)%nat) (unassigned st))
+                                    (arrivals st1)) = true ->
+        exists st', f_sync_aware I order orders st = Some st').
+Proof. exact f_sync_aware_total. Qed.
+Print Assumptions C18_vrp_sync_aware_total.
+
+Theorem C18_vrp_worst_total : forall I idxs st rem,
+  idxs <> [] -> pop_all (worst_candidates I st) idxs = Some rem -> exists st', f_worst I idxs st = Some st'.
+Proof. exact f_worst_total. Qed.
+Print Assumptions C18_vrp_worst_total.
+
+Theorem C18_vrp_related_total : forall I nrem seed st,
+  In seed (assigned st) -> exists st', f_related I nrem seed st = Some st'.
+Proof. exact f_related_total. Qed.
+Print Assumptions C18_vrp_related_total.
+
+Theorem C18_vrp_sync_removal_total : forall I target sample st,
+  match sync_customers I st with
+  | [] => sample <> [] /\ (forall x, In x sample -> In x (assigned st)) \/ assigned st = []
+  | sc => In target sc
+  end -> exists st', f_sync_removal I target sample st = Some st'.
+Proof. exact f_sync_removal_total. Qed.
+Print Assumptions C18_vrp_sync_removal_total.
 
 (* ... and by solve_vrptw: initial greedy_insertion, then any number of ALNS iterations with any operators, choices
    and acceptance answers; the reported objective is the objective of the returned state *)
@@ -133,3 +185,14 @@ Example C18_vrp_nonvacuous_solve :
                     (RouteRemoval [1%nat], RegretInsertion [(3, 1, 0)]%nat, true)] = Some (st, obj)
                  /\ spec_chk (default_weights, ex_inst, st, obj) = true.
 Proof. eexists. eexists. split; vm_compute; reflexivity. Qed.
+
+(* the choice-computing operators on the same instance: sync_aware_insertion from the empty plan (customer 2 gets its two
+   vehicles, customer 4 finds only one feasible vehicle and stays unassigned), worst_removal with candidate indices 0, 1,
+   greedy_insertion in the order 4, 2, regret_insertion with nothing left to do *)
+Example C18_vrp_nonvacuous_computed :
+  run_fops ex_inst [FSyncAwareInsertion [1; 2; 3; 4]%nat [[1; 3]; [3]]%nat; FWorstRemoval [0; 1]%nat;
+                    FGreedyInsertion [4; 2]%nat; FRegretInsertion 2 [[4; 2]]%nat] (init_state ex_inst)
+  = Some (mkSt [[2; 3; 1]; [4]]%nat [] [[5; 15; 20]; [2]])
+  /\ run_fops ex_inst [FSyncAwareInsertion [1; 2; 3; 4]%nat [[1; 3]; [3]]%nat] (init_state ex_inst)
+     = Some (mkSt [[3; 1; 2]; [2]]%nat [4%nat] [[3; 8; 12]; [5]]).
+Proof. split; vm_compute; reflexivity. Qed.
